@@ -62,6 +62,10 @@ pub(super) struct RenderTerminusContext<'ctx, 'tcx> {
 
     pub relative_import_path: String,
     pub module_name: String,
+
+    /// The (type, constructor) pairs being evaluated right now (innermost last), so that a constructor which
+    /// needs its own type (directly or through another type) is not followed forever.
+    pub constructing: Vec<(String, String)>,
 }
 
 impl MethodDependency {
@@ -390,6 +394,7 @@ impl RenderTerminusContext<'_, '_> {
         param_name: String,
         node: &mut MethodDependency,
     ) -> String {
+        let mut cyclic = false;
         for method in op.methods.iter() {
             let method_attrs = &method.attrs.demo_attrs;
 
@@ -403,6 +408,13 @@ impl RenderTerminusContext<'_, '_> {
             }
 
             if usable_constructor {
+                // Already in the middle of this very constructor: try the next usable one
+                let key = (type_name.clone(), method.name.as_str().to_string());
+                if self.constructing.contains(&key) {
+                    cyclic = true;
+                    continue;
+                }
+
                 self.terminus_info
                     .imports
                     .insert(self.formatter.fmt_import_module(
@@ -429,9 +441,26 @@ impl RenderTerminusContext<'_, '_> {
                     Some(owned_type),
                 );
 
+                self.constructing.push(key);
                 self.evaluate_constructor(method, &mut child);
+                self.constructing.pop();
                 return child.variable_name;
             }
+        }
+
+        if cyclic {
+            self.errors.push_error(format!(
+                "Cannot build a {} for the function {}: every usable constructor (transitively) needs a {0} itself. \
+                Mark a constructor without such a parameter with #[diplomat::demo(default_constructor)], \
+                or disable the type in the backend: `#[diplomat::attr(demo_gen, disable)]`.",
+                op.name.as_str(),
+                node.method_js
+            ));
+
+            return format!(
+                "null /*Every usable constructor of {} needs a {0}*/",
+                op.name.as_str()
+            );
         }
 
         self.errors.push_error(
